@@ -34,12 +34,15 @@ def check_case(case):
     else:  # mux without a live input, next to a live shared source
         spec = mux_spec([tuple(x) for x in case["inputs"]], case["pal"], case["rs_list"], below="deep", mux_pc=case.get("mux_pc"))
     s, obs = phys.solve_and_check(res, spec, WANT)
-    if obs is not None and fam == "phase" and spec.get("phases") and len(case["f"]) == 1:
-        # a tight iteration budget: either RuntimeError or a table in which the dead rail is still dead (never an unconverged earlier phase)
-        sub = Res()
-        s2, obs2 = phys.solve_and_check(sub, spec, ("C04",), solve_kw=dict(maxiter=3))
-        for sig, det in sub.viol:
-            res.v(("C04.maxiter3",) + sig, det)
+    if obs is not None and fam == "phase" and spec.get("phases") and case.get("chain"):
+        # tight iteration budgets: for EVERY budget either RuntimeError or a table in which every phase is converged and the dead rail dead
+        for mi in (2, 4, 6, 9, 13):
+            sub = Res()
+            s2, obs2 = phys.solve_and_check(sub, spec, WANT, solve_kw=dict(maxiter=mi))
+            for sig, det in sub.viol:
+                res.v(("C04.maxiter",) + sig, "maxiter=%d: %s" % (mi, det))
+            if sub.viol:
+                break
     if obs is not None and fam == "phase" and spec.get("phases") and (len(spec["comps"]) <= 3 or case["pc"] == ["zz"] or len(case["f"]) == 1):
         # the same system with a rail on every non-load component: a dead rail must be reported at 0 V in exactly the phases in which it is dead
         import copy
@@ -91,7 +94,9 @@ def gen_cases(tier):
                 spec = spec_from_forest(f, pal, 1, 0.37)
                 for c in spec["comps"]:
                     if c["k"] in PHASE_LIST_KINDS:
-                        yield dict(fam="phase", f=f, pal=pal, pol=1, srs=0.37, who=c["n"], pc=["b"])
+                        yield dict(fam="phase", f=f, pal=pal, pol=1, srs=0.37, who=c["n"], pc=["b"], chain=(n == 4))
+                        if n == 4:
+                            yield dict(fam="phase", f=f, pal=pal, pol=1, srs=0.37, who=c["n"], pc=["a"], chain=True)
         for n1 in (1, 2):
             for f1 in mid.iter_forests(n1):
                 for f2 in mid.iter_forests(1):
